@@ -6,6 +6,7 @@ import (
 	"math"
 	"math/big"
 	"math/bits"
+	"os"
 	"strconv"
 )
 
@@ -22,6 +23,9 @@ func (m Mode) String() string {
 	}
 	return "BV"
 }
+
+var noRadix = os.Getenv("VERIF_NORADIX") == "1"
+var linDiv = os.Getenv("VERIF_LINDIV") == "1"
 
 var trueT = &Term{Name: "true", Sort: Sort{K: SBool}}
 var falseT = &Term{Name: "false", Sort: Sort{K: SBool}}
@@ -175,7 +179,7 @@ func max64(a ...int64) int64 {
 }
 
 // ival returns the interval of x (falls back to the type's range).
-func (x Int) ival() (lo, hi int64, ok bool) {
+func (e *Exec) ival(x Int) (lo, hi int64, ok bool) {
 	if x.S == nil {
 		if !x.Sg && x.C < 0 {
 			return 0, 0, false
@@ -183,9 +187,67 @@ func (x Int) ival() (lo, hi int64, ok bool) {
 		return x.C, x.C, true
 	}
 	if x.S.Bnd {
-		return x.S.Lo, x.S.Hi, true
+		lo, hi, ok = x.S.Lo, x.S.Hi, true
+	} else {
+		lo, hi, ok = typeRange(x.W, x.Sg)
 	}
-	return typeRange(x.W, x.Sg)
+	if r, has := e.refine[e.refKey(x.S, x.Sg)]; has {
+		if !ok {
+			if r[0] >= 0 {
+				return r[0], r[1], true
+			}
+			return lo, hi, ok
+		}
+		if r[0] > lo {
+			lo = r[0]
+		}
+		if r[1] < hi {
+			hi = r[1]
+		}
+		if lo > hi { // contradictory path condition; keep a sound (arbitrary) non-empty interval
+			hi = lo
+		}
+	}
+	return lo, hi, ok
+}
+
+func (e *Exec) refKey(t *Term, sg bool) string {
+	if e.mode == ModeINT || sg {
+		return t.Name
+	}
+	return t.Name + "|u"
+}
+
+// learn records the consequence of an asserted comparison "X op C" for X's interval on this path.
+func (e *Exec) learn(t *Term) {
+	if t.CmpX == nil {
+		return
+	}
+	key := e.refKey(t.CmpX, t.CmpSg)
+	r, has := e.refine[key]
+	if !has {
+		r = [2]int64{math.MinInt64, math.MaxInt64}
+	}
+	c := t.CmpC
+	switch t.CmpOp {
+	case token.EQL:
+		r[0], r[1] = max64(r[0], c), min64(r[1], c)
+	case token.LSS:
+		if c > math.MinInt64 {
+			r[1] = min64(r[1], c-1)
+		}
+	case token.LEQ:
+		r[1] = min64(r[1], c)
+	case token.GTR:
+		if c < math.MaxInt64 {
+			r[0] = max64(r[0], c+1)
+		}
+	case token.GEQ:
+		r[0] = max64(r[0], c)
+	default:
+		return
+	}
+	e.refine[key] = r
 }
 
 func inRange(lo, hi int64, w uint8, sg bool) bool {
@@ -301,8 +363,14 @@ func (e *Exec) intBin(op token.Token, x, y Int) Int {
 			}
 		}
 	}
-	xl, xh, xok := x.ival()
-	yl, yh, yok := y.ival()
+	xl, xh, xok := e.ival(x)
+	yl, yh, yok := e.ival(y)
+	if (op == token.REM || op == token.QUO) && xok && yok && xl >= 0 && yl > 0 && xh < yl {
+		if op == token.REM {
+			return x
+		}
+		return Int{W: w, Sg: sg}
+	}
 	tx, ty := e.intTerm(x), e.intTerm(y)
 	if e.mode == ModeINT {
 		return e.intBinINT(op, x, y, tx, ty, xl, xh, xok, yl, yh, yok)
@@ -455,6 +523,44 @@ func (e *Exec) shiftCount(y Int, ty *Term, w uint8) string {
 func (e *Exec) intBinINT(op token.Token, x, y Int, tx, ty *Term, xl, xh int64, xok bool, yl, yh int64, yok bool) Int {
 	w, sg := x.W, x.Sg
 	S := Sort{K: SInt}
+	// base+offset normal form: (b + c1) +/- c2 is rebuilt as b + (c1 +/- c2), collapsing to b when the offsets cancel
+	if (op == token.ADD || op == token.SUB) && xok {
+		var sym *Term
+		var c int64
+		switch {
+		case y.S == nil && x.S != nil && (y.Sg || y.C >= 0):
+			sym, c = x.S, y.C
+			if op == token.SUB {
+				c = -c
+			}
+		case x.S == nil && y.S != nil && op == token.ADD && (x.Sg || x.C >= 0):
+			sym, c = y.S, x.C
+			xl, xh = yl, yh
+		}
+		if sym != nil && sym.Base != nil && c > -(1<<40) && c < 1<<40 && sym.Off > -(1<<40) && sym.Off < 1<<40 {
+			off := sym.Off + c
+			l, o1 := addOv(xl, c)
+			h, o2 := addOv(xh, c)
+			if o1 && o2 && inRange(l, h, w, sg) {
+				base := sym.Base
+				if off == 0 {
+					nb := *base
+					return e.mkSym(&nb, w, sg, l, h, true)
+				}
+				t := e.def(S, "(+ "+base.Name+" "+intLit(off)+")")
+				t.Base, t.Off = base, off
+				return e.mkSym(t, w, sg, l, h, true)
+			}
+		} else if sym != nil && sym.Base == nil && c != 0 && c > -(1<<40) && c < 1<<40 {
+			l, o1 := addOv(xl, c)
+			h, o2 := addOv(xh, c)
+			if o1 && o2 && inRange(l, h, w, sg) {
+				t := e.def(S, "(+ "+sym.Name+" "+intLit(c)+")")
+				t.Base, t.Off = sym, c
+				return e.mkSym(t, w, sg, l, h, true)
+			}
+		}
+	}
 	switch op {
 	case token.ADD:
 		t := e.def(S, "(+ "+tx.Name+" "+ty.Name+")")
@@ -477,6 +583,17 @@ func (e *Exec) intBinINT(op token.Token, x, y Int, tx, ty *Term, xl, xh int64, x
 		}
 		return e.wrapINT(t, w, sg, 0, 0, false)
 	case token.MUL:
+		if !noRadix {
+			if y.S == nil && x.S != nil {
+				if r, ok := e.radixMulConst(x, y.C); ok {
+					return r
+				}
+			} else if x.S == nil && y.S != nil {
+				if r, ok := e.radixMulConst(y, x.C); ok {
+					return r
+				}
+			}
+		}
 		t := e.def(S, "(* "+tx.Name+" "+ty.Name+")")
 		if x.S != nil && y.S != nil {
 			e.nonlinear++
@@ -509,6 +626,22 @@ func (e *Exec) intBinINT(op token.Token, x, y Int, tx, ty *Term, xl, xh int64, x
 		}
 		if yh < 0 {
 			panic(unsupported("INT division by negative symbolic divisor"))
+		}
+		if y.S == nil && xok && xl >= 0 && !noRadix {
+			if q, r, ok := e.radixDivMod(x, y.C); ok {
+				if op == token.QUO {
+					return q
+				}
+				return r
+			}
+		}
+		if y.S == nil && linDiv {
+			// constant positive divisor: linearise with fresh quotient/remainder x = c*q + r (shared between / and %)
+			q, r := e.divmodConst(x, tx, y.C, xl, xh, xok)
+			if op == token.QUO {
+				return q
+			}
+			return r
 		}
 		if xok && xl >= 0 {
 			if op == token.QUO {
@@ -585,8 +718,8 @@ func (e *Exec) intBinINT(op token.Token, x, y Int, tx, ty *Term, xl, xh int64, x
 
 // bitwiseINT expands small operands bit by bit (only when both fit in 16 bits, non-negative).
 func (e *Exec) bitwiseINT(op token.Token, x, y Int) Int {
-	xl, xh, xok := x.ival()
-	yl, yh, yok := y.ival()
+	xl, xh, xok := e.ival(x)
+	yl, yh, yok := e.ival(y)
 	if !(xok && yok && xl >= 0 && yl >= 0 && xh < 1<<16 && yh < 1<<16) {
 		panic(unsupported("INT mode: bitwise " + op.String() + " on wide operands"))
 	}
@@ -731,8 +864,8 @@ func (e *Exec) intCmp(op token.Token, x, y Int) Bool {
 		}
 		return Bool{C: r}
 	}
-	xl, xh, xok := x.ival()
-	yl, yh, yok := y.ival()
+	xl, xh, xok := e.ival(x)
+	yl, yh, yok := e.ival(y)
 	if xok && yok {
 		switch op {
 		case token.EQL:
@@ -822,7 +955,46 @@ func (e *Exec) intCmp(op token.Token, x, y Int) Bool {
 	if neg {
 		expr = "(not " + expr + ")"
 	}
-	return Bool{S: e.def(Sort{K: SBool}, expr)}
+	bt := e.def(Sort{K: SBool}, expr)
+	// remember "X op C" so that asserting it refines X's interval on this path
+	if y.S == nil && x.S != nil && (y.Sg || y.C >= 0) {
+		bt.CmpX, bt.CmpOp, bt.CmpC, bt.CmpSg = x.S, op, y.C, x.Sg
+	} else if x.S == nil && y.S != nil && (x.Sg || x.C >= 0) {
+		bt.CmpX, bt.CmpOp, bt.CmpC, bt.CmpSg = y.S, flipOp(op), x.C, y.Sg
+	}
+	return Bool{S: bt}
+}
+
+func flipOp(op token.Token) token.Token {
+	switch op {
+	case token.LSS:
+		return token.GTR
+	case token.LEQ:
+		return token.GEQ
+	case token.GTR:
+		return token.LSS
+	case token.GEQ:
+		return token.LEQ
+	}
+	return op
+}
+
+func negOp(op token.Token) token.Token {
+	switch op {
+	case token.LSS:
+		return token.GEQ
+	case token.LEQ:
+		return token.GTR
+	case token.GTR:
+		return token.LEQ
+	case token.GEQ:
+		return token.LSS
+	case token.EQL:
+		return token.NEQ
+	case token.NEQ:
+		return token.EQL
+	}
+	return op
 }
 
 // intConv converts x to an integer type of width w / signedness sg with Go semantics.
@@ -830,7 +1002,7 @@ func (e *Exec) intConv(x Int, w uint8, sg bool) Int {
 	if x.S == nil {
 		return normInt(Int{W: w, Sg: sg, C: x.C})
 	}
-	xl, xh, xok := x.ival()
+	xl, xh, xok := e.ival(x)
 	fits := xok && inRange(xl, xh, w, sg)
 	if e.mode == ModeINT {
 		if fits {
@@ -883,10 +1055,16 @@ func (e *Exec) not(b Bool) Bool {
 	if b.S == nil {
 		return Bool{C: !b.C}
 	}
+	var nt *Term
 	if len(b.S.Name) > 5 && b.S.Name[:5] == "(not " {
-		return Bool{S: &Term{Name: b.S.Name[5 : len(b.S.Name)-1], Sort: Sort{K: SBool}}}
+		nt = &Term{Name: b.S.Name[5 : len(b.S.Name)-1], Sort: Sort{K: SBool}}
+	} else {
+		nt = &Term{Name: "(not " + b.S.Name + ")", Sort: Sort{K: SBool}}
 	}
-	return Bool{S: &Term{Name: "(not " + b.S.Name + ")", Sort: Sort{K: SBool}}}
+	if b.S.CmpX != nil {
+		nt.CmpX, nt.CmpOp, nt.CmpC, nt.CmpSg = b.S.CmpX, negOp(b.S.CmpOp), b.S.CmpC, b.S.CmpSg
+	}
+	return Bool{S: nt}
 }
 
 func (e *Exec) and(a, b Bool) Bool {
@@ -953,8 +1131,8 @@ func (e *Exec) iteInt(c Bool, x, y Int) Int {
 	}
 	tx, ty := e.intTerm(x), e.intTerm(y)
 	t := e.def(tx.Sort, "(ite "+c.S.Name+" "+tx.Name+" "+ty.Name+")")
-	xl, xh, xok := x.ival()
-	yl, yh, yok := y.ival()
+	xl, xh, xok := e.ival(x)
+	yl, yh, yok := e.ival(y)
 	if xok && yok {
 		return e.mkSym(t, x.W, x.Sg, min64(xl, yl), max64(xh, yh), true)
 	}
@@ -988,4 +1166,200 @@ func (e *Exec) strEq(a, b Str) Bool {
 		r = e.and(r, c)
 	}
 	return r
+}
+
+// divmodConst introduces (once per dividend/divisor pair) fresh integers q, r with x = c*q + r and Go's
+// truncated-division sign rule, so that the solver sees linear constraints instead of div/mod terms.
+func (e *Exec) divmodConst(x Int, tx *Term, c int64, xl, xh int64, xok bool) (Int, Int) {
+	key := tx.Name + "/" + strconv.FormatInt(c, 10)
+	if qr, ok := e.divCache[key]; ok {
+		return qr[0], qr[1]
+	}
+	S := Sort{K: SInt}
+	q := e.fresh("q", S)
+	r := e.fresh("r", S)
+	e.sol.Send(fmt.Sprintf("(assert (= %s (+ (* %d %s) %s)))", tx.Name, c, q.Name, r.Name))
+	var qi, ri Int
+	if xok && xl >= 0 {
+		e.sol.Send(fmt.Sprintf("(assert (and (>= %s 0) (< %s %d)))", r.Name, r.Name, c))
+		qi = e.mkSym(q, x.W, x.Sg, xl/c, xh/c, true)
+		ri = e.mkSym(r, x.W, x.Sg, 0, min64(xh, c-1), true)
+	} else {
+		e.sol.Send(fmt.Sprintf("(assert (ite (>= %s 0) (and (>= %s 0) (< %s %d)) (and (<= %s 0) (> %s (- %d)))))", tx.Name, r.Name, r.Name, c, r.Name, r.Name, c))
+		if xok {
+			qi = e.mkSym(q, x.W, x.Sg, min64(xl/c, 0), max64(xh/c, 0), true)
+		} else {
+			tl, th, _ := typeRange(x.W, x.Sg)
+			qi = e.mkSym(q, x.W, x.Sg, tl/c, th/c, true)
+		}
+		ri = e.mkSym(r, x.W, x.Sg, -(c - 1), c-1, true)
+	}
+	// a single-point interval made the result concrete: pin the fresh constant as well
+	if qi.S == nil {
+		e.sol.Send(fmt.Sprintf("(assert (= %s %s))", q.Name, intLit(qi.C)))
+	}
+	if ri.S == nil {
+		e.sol.Send(fmt.Sprintf("(assert (= %s %s))", r.Name, intLit(ri.C)))
+	}
+	e.divCache[key] = [2]Int{qi, ri}
+	return qi, ri
+}
+
+// floorReal returns a fresh integer t with t <= v < t+1.
+func (e *Exec) floorReal(v *Term) *Term {
+	if t, ok := e.floorCache[v.Name]; ok {
+		return t
+	}
+	if !linDiv {
+		t := e.def(Sort{K: SInt}, "(to_int "+v.Name+")")
+		if v.RBnd && math.Abs(v.RLo) < 1e18 && math.Abs(v.RHi) < 1e18 {
+			t = &Term{Name: t.Name, Sort: t.Sort, Lo: int64(math.Floor(v.RLo)), Hi: int64(math.Floor(v.RHi)), Bnd: true}
+		}
+		e.floorCache[v.Name] = t
+		return t
+	}
+	t := e.fresh("fi", Sort{K: SInt})
+	e.sol.Send(fmt.Sprintf("(assert (and (<= (to_real %s) %s) (< %s (+ (to_real %s) 1.0))))", t.Name, v.Name, v.Name, t.Name))
+	if v.RBnd && math.Abs(v.RLo) < 1e18 && math.Abs(v.RHi) < 1e18 {
+		t.Lo, t.Hi, t.Bnd = int64(math.Floor(v.RLo)), int64(math.Floor(v.RHi)), true
+	}
+	e.floorCache[v.Name] = t
+	return t
+}
+
+// ---------- mixed-radix decomposition for division by constants (INT mode) ----------
+//
+// For a non-negative dividend x and the chain of constant divisors c1 > c2 > ... > ck met so far (each dividing
+// the previous one) the engine keeps fresh integers D0..Dk with
+//     x = D0*c1 + D1*c2 + ... + D(k-1)*ck + Dk,   0 <= Dj < c(j)/c(j+1)   (c(k+1) = 1)
+// so that every x / cj and x % cj is a linear expression with small coefficients. A new constant that fits the
+// divisibility chain splits one digit in two (one linear equation); one that does not fit falls back to div/mod.
+type radix struct {
+	x  *Term
+	cs []int64
+	ds []Int
+}
+
+func (e *Exec) radixFor(x Int) *radix {
+	if r, ok := e.radixes[x.S.Name]; ok {
+		return r
+	}
+	r := &radix{x: x.S, ds: []Int{x}}
+	e.radixes[x.S.Name] = r
+	return r
+}
+
+// insert makes c a member of the chain; false if c does not fit.
+func (e *Exec) radixInsert(r *radix, c int64) bool {
+	t := 0
+	for t < len(r.cs) && r.cs[t] > c {
+		t++
+	}
+	if t < len(r.cs) && r.cs[t] == c {
+		return true
+	}
+	if t > 0 && r.cs[t-1]%c != 0 {
+		return false
+	}
+	below := int64(1)
+	if t < len(r.cs) {
+		below = r.cs[t]
+	}
+	if c%below != 0 {
+		return false
+	}
+	old := r.ds[t]
+	ol, oh, ook := e.ival(old)
+	if !ook || ol < 0 {
+		return false
+	}
+	f := c / below // old = hi*f + lo, 0 <= lo < f
+	hiT := e.fresh("d", Sort{K: SInt})
+	loT := e.fresh("d", Sort{K: SInt})
+	hi := e.mkSym(hiT, old.W, old.Sg, ol/f, oh/f, true)
+	lo := e.mkSym(loT, old.W, old.Sg, 0, min64(oh, f-1), true)
+	ot := e.intTerm(old)
+	e.sol.Send(fmt.Sprintf("(assert (= %s (+ (* %d %s) %s)))", ot.Name, f, hiT.Name, loT.Name))
+	e.sol.Send(fmt.Sprintf("(assert (and (>= %s 0) (< %s %d) (>= %s %d) (<= %s %d)))", loT.Name, loT.Name, f, hiT.Name, ol/f, hiT.Name, oh/f))
+	if hi.S == nil {
+		e.sol.Send(fmt.Sprintf("(assert (= %s %d))", hiT.Name, hi.C))
+	}
+	if lo.S == nil {
+		e.sol.Send(fmt.Sprintf("(assert (= %s %d))", loT.Name, lo.C))
+	}
+	ncs := append(append(append([]int64{}, r.cs[:t]...), c), r.cs[t:]...)
+	nds := append(append(append([]Int{}, r.ds[:t]...), hi, lo), r.ds[t+1:]...)
+	r.cs, r.ds = ncs, nds
+	e.radixSplits++
+	return true
+}
+
+// A tagged term stands for the digit range  sum{ ds[m]*coef(m)/unit : lo <= coef(m) < hiEx }  of its decomposition
+// (hiEx == 0 means no upper limit). X itself is (0,1,1); X mod c is (c,1,1); X div c is (0,c,c); (X div c)*c is (0,c,1).
+func (e *Exec) radixRange(r *radix, hiEx, lo, unit int64, w uint8, sg bool) Int {
+	acc := Int{W: w, Sg: sg}
+	for m := range r.ds {
+		coef := int64(1)
+		if m < len(r.cs) {
+			coef = r.cs[m]
+		}
+		if coef < lo || (hiEx != 0 && coef >= hiEx) {
+			continue
+		}
+		term := e.intBin(token.MUL, r.ds[m], Int{W: w, Sg: sg, C: coef / unit})
+		acc = e.intBin(token.ADD, acc, term)
+	}
+	if acc.S != nil {
+		nt := *acc.S
+		nt.Rad, nt.RadHi, nt.RadLo, nt.RadUnit = r, hiEx, lo, unit
+		nt.Base, nt.Off = nil, 0
+		acc.S = &nt
+	}
+	return acc
+}
+
+func (e *Exec) radixTag(x Int) (*radix, int64, int64, int64) {
+	if x.S.Rad != nil {
+		return x.S.Rad, x.S.RadHi, x.S.RadLo, x.S.RadUnit
+	}
+	return e.radixFor(x), 0, 1, 1
+}
+
+func (e *Exec) radixDivMod(x Int, k int64) (Int, Int, bool) {
+	if x.S == nil || k <= 0 {
+		return Int{}, Int{}, false
+	}
+	r, hiEx, lo, unit := e.radixTag(x)
+	c, ok := mulOv(unit, k)
+	if !ok {
+		return Int{}, Int{}, false
+	}
+	if !e.radixInsert(r, c) {
+		return Int{}, Int{}, false
+	}
+	// quotient: digits with coef >= c, scaled by c ; remainder: digits with coef < c, same unit
+	var q, rem Int
+	if hiEx != 0 && c >= hiEx {
+		q = Int{W: x.W, Sg: x.Sg}
+	} else {
+		q = e.radixRange(r, hiEx, max64(lo, c), c, x.W, x.Sg)
+	}
+	if c <= lo {
+		rem = Int{W: x.W, Sg: x.Sg}
+	} else {
+		nh := c
+		if hiEx != 0 && hiEx < c {
+			nh = hiEx
+		}
+		rem = e.radixRange(r, nh, lo, unit, x.W, x.Sg)
+	}
+	return q, rem, true
+}
+
+// radixMulConst: (tagged value) * k keeps the tag when k divides the unit.
+func (e *Exec) radixMulConst(x Int, k int64) (Int, bool) {
+	if x.S == nil || x.S.Rad == nil || k <= 0 || x.S.RadUnit%k != 0 {
+		return Int{}, false
+	}
+	return e.radixRange(x.S.Rad, x.S.RadHi, x.S.RadLo, x.S.RadUnit/k, x.W, x.Sg), true
 }
